@@ -225,12 +225,13 @@ func checkValueSpecs(a *A, cd *codec, specs []valueSpec) {
 			got := map[string]string{}
 			pos := w.pos(cd.valFn.Pos())
 			for _, ret := range successReturns(rv, 2) {
-				c := valueCond(cd, rv, ret)
-				t := valueTerm(cd, rv, ret.Results[0])
-				if old, dup := got[c]; dup && old != t {
-					t = old + " | " + t
+				for _, alt := range returnAlts(cd, rv, ret) {
+					c, t := alt[0], alt[1]
+					if old, dup := got[c]; dup && old != t {
+						t = old + " | " + t
+					}
+					got[c] = t
 				}
-				got[c] = t
 				pos = w.posOf(ret)
 			}
 			key := "value@" + vs.Type
